@@ -51,9 +51,11 @@ func midsOf(ids []int) []tss.MemberID {
 
 // ---- Lagrange differential ---------------------------------------------------------------------------
 func opLagrange(tr *fx.Trace, mid int, ids []int) {
-	l, err := tss.ComputeLagrangeCoefficient(tss.MemberID(mid), midsOf(ids))
-	out := fx.M{"err": err != nil, "coeff": ""}
-	if err == nil {
+	var l tss.Scalar
+	var err error
+	p := fx.Try(func() error { l, err = tss.ComputeLagrangeCoefficient(tss.MemberID(mid), midsOf(ids)); return nil })
+	out := fx.M{"err": err != nil, "coeff": "", "panic": p}
+	if err == nil && p == "" {
 		out["coeff"] = hx(l)
 	}
 	tr.Op(fx.M{"op": "lagrange", "mid": mid, "ids": ids, "out": out})
@@ -343,6 +345,8 @@ func opChain(app *fx.App, tr *fx.Trace, r *fx.Rng, caseNo int) {
 			if n > 1 {
 				submit("wrongSigner", am.MemberID, good, g.Addr(int(am.MemberID)%n+1).String())
 			}
+			// the correct share with one byte too many: not a signature (aggregation could not parse it)
+			submit("trailingByte", am.MemberID, append(append(tss.Signature{}, good...), 0), am.Address)
 		}
 		submit("correct", am.MemberID, good, am.Address)
 		if r.Chance(1, 3) {
